@@ -2,26 +2,31 @@
   C12, effect discipline: a tiny imperative IR with a heap, a may-alias-an-input analysis, and
   the theorem that a program passing the analysis never writes to an object that existed on entry.
 
-  The Go functions of composer.go / operationapplier.go are summarised in this IR by the
-  extractor (`Generated.prog_*`); the obligations `Disciplined … = true` are checked by `decide`.
+  The Go functions of composer.go / operationapplier.go (C12) and of the transformers and
+  metadata.go (C20) are summarised in this IR by the extractor (`Generated.prog_*`); the
+  obligations `Disciplined … = true` are decided by the kernel (`decide +kernel`).
 -/
 namespace Sidetree.Effects
 
-inductive Instr where
-  | alloc (x : String)            -- x := make(...) / literal / result of a pure call
-  | copy (x y : String)           -- x := deep copy of y (fresh object with y's content)
-  | alias (x y : String)          -- x may now also refer to what y refers to (x := y, a view into y, one branch of several)
-  | write (x : String)            -- x[...] = …, x.f = …, append in place, sort in place
+/-- names are of any type with decidable equality: strings in the examples, numbers (indices
+    into the extractor's name table) in the generated summaries, which the kernel compares fast -/
+inductive Instr (α : Type) where
+  | alloc (x : α)            -- x := make(...) / literal / result of a pure call
+  | copy (x y : α)           -- x := deep copy of y (fresh object with y's content)
+  | alias (x y : α)          -- x may now also refer to what y refers to (x := y, a view into y, one branch of several)
+  | write (x : α)            -- x[...] = …, x.f = …, append in place, sort in place
 deriving Repr, DecidableEq
 
-abbrev Prog := List Instr
+abbrev Prog (α : Type) := List (Instr α)
 
-structure State where
-  env : String → Option Nat
+variable {α : Type} [DecidableEq α]
+
+structure State (α : Type) where
+  env : α → Option Nat
   heap : Nat → Nat          -- object id ↦ number of writes it has received
   next : Nat
 
-def exec1 (s : State) : Instr → State
+def exec1 (s : State α) : Instr α → State α
   | .alloc x => { env := fun n => if n = x then some s.next else s.env n, heap := s.heap, next := s.next + 1 }
   | .copy x _ => { env := fun n => if n = x then some s.next else s.env n, heap := s.heap, next := s.next + 1 }
   | .alias x y => { s with env := fun n => if n = x then s.env y else s.env n }   -- one possible outcome; see `step`
@@ -30,30 +35,30 @@ def exec1 (s : State) : Instr → State
     | some o => { s with heap := fun i => if i = o then s.heap i + 1 else s.heap i }
     | none => s
 
-def exec (s : State) (p : Prog) : State := p.foldl exec1 s
+def exec (s : State α) (p : Prog α) : State α := p.foldl exec1 s
 
 /-- names that may refer to an object that existed on entry -/
-def step (t : List String) : Instr → Option (List String)
+def step (t : List α) : Instr α → Option (List α)
   | .alloc x => some (t.filter (· ≠ x))
   | .copy x _ => some (t.filter (· ≠ x))
   | .alias x y => if y ∈ t then some (if x ∈ t then t else x :: t) else some t   -- never removes: branches are flattened
   | .write x => if x ∈ t then none else some t
 
 /-- the analysis: `inputs` are the parameters (and anything reachable from them) -/
-def disciplinedFrom : List String → Prog → Bool
+def disciplinedFrom : List α → Prog α → Bool
   | _, [] => true
   | t, i :: rest => match step t i with
     | some t' => disciplinedFrom t' rest
     | none => false
 
-def Disciplined (inputs : List String) (p : Prog) : Bool := disciplinedFrom inputs p
+def Disciplined (inputs : List α) (p : Prog α) : Bool := disciplinedFrom inputs p
 
 /-- the invariant: every name outside the taint set is unbound or bound to an object allocated
     after entry -/
-def Inv (entry : Nat) (t : List String) (s : State) : Prop :=
+def Inv (entry : Nat) (t : List α) (s : State α) : Prop :=
   entry ≤ s.next ∧ ∀ n o, n ∉ t → s.env n = some o → entry ≤ o
 
-theorem inv_step (entry : Nat) (t t' : List String) (s : State) (i : Instr)
+theorem inv_step (entry : Nat) (t t' : List α) (s : State α) (i : Instr α)
     (hinv : Inv entry t s) (hs : step t i = some t') :
     Inv entry t' (exec1 s i) ∧ ∀ o, o < entry → (exec1 s i).heap o = s.heap o := by
   obtain ⟨hn, hb⟩ := hinv
@@ -130,7 +135,7 @@ theorem inv_step (entry : Nat) (t t' : List String) (s : State) (i : Instr)
 /-- **a disciplined program never writes to an object that existed on entry**: every object
     with an id below `s.next` (inputs and everything reachable from them) is unchanged -/
 theorem disciplined_no_input_write :
-    ∀ (p : Prog) (t : List String) (entry : Nat) (s : State),
+    ∀ (p : Prog α) (t : List α) (entry : Nat) (s : State α),
       Inv entry t s → disciplinedFrom t p = true → ∀ o, o < entry → (exec s p).heap o = s.heap o
   | [], _, _, _, _, _, _, _ => rfl
   | i :: rest, t, entry, s, hinv, hd, o, ho => by
@@ -144,12 +149,13 @@ theorem disciplined_no_input_write :
       simp only [exec, List.foldl_cons] at this ⊢
       rw [this, hheap o ho]
 
+omit [DecidableEq α] in
 /-- on entry, with every bound name in the taint set, the invariant holds -/
-theorem inv_entry (inputs : List String) (s : State) (h : ∀ n o, s.env n = some o → n ∈ inputs) :
+theorem inv_entry (inputs : List α) (s : State α) (h : ∀ n o, s.env n = some o → n ∈ inputs) :
     Inv s.next inputs s :=
   ⟨Nat.le_refl _, fun n o hn he => absurd (h n o he) hn⟩
 
-theorem disciplined_sound (inputs : List String) (p : Prog) (s : State)
+theorem disciplined_sound (inputs : List α) (p : Prog α) (s : State α)
     (hbound : ∀ n o, s.env n = some o → n ∈ inputs) (hd : Disciplined inputs p = true) :
     ∀ o, o < s.next → (exec s p).heap o = s.heap o :=
   disciplined_no_input_write p inputs s.next s (inv_entry inputs s hbound) hd
